@@ -269,9 +269,12 @@ func runSpSim(a []string) string {
 	for _, g := range games {
 		fmt.Fprintf(&sb, " g=%d.%d.%s.%s.%d.%d:%s", g.Oi, g.I, spColor(g.P1Color), spColor(g.Winner), g.Position.Hash(), g.Position.MoveNumber(), spMoves(g.Moves))
 	}
-	fmt.Fprintf(&sb, " calls=%d,%d", spCalls, spDeadlines)
-	if len(spClocks) > 0 {
-		sb.WriteString(" clk=" + strings.Join(spClocks, ";"))
+	if crash == "" {
+		// (the calls of a game that ended the process are not part of any result)
+		fmt.Fprintf(&sb, " calls=%d,%d", spCalls, spDeadlines)
+		if len(spClocks) > 0 {
+			sb.WriteString(" clk=" + strings.Join(spClocks, ";"))
+		}
 	}
 	sb.WriteString(" stop=" + spCrashClass(crash))
 	return sb.String()
@@ -286,7 +289,7 @@ func runSpOpen(tok string) string {
 	}
 	w := []string{"ok"}
 	for _, p := range ps {
-		w = append(w, encPos(p))
+		w = append(w, dumpPos(p))
 	}
 	return strings.Join(w, " ")
 }
@@ -358,6 +361,9 @@ func runSpRun(flagTok string, openings string) string {
 			j := strings.Index(l, " ties=")
 			k := strings.Index(l, " limit=")
 			l = l[:i] + l[j:k]
+		}
+		if strings.HasPrefix(l, "writing summary:") {
+			l = "writing summary:" // the text of the os error is not compared
 		}
 		if strings.HasPrefix(l, "ΔELO") || strings.HasPrefix(l, "p[one-sided]") {
 			continue
